@@ -28,7 +28,23 @@ def shrink(binp, work, case_lines, key):
     """greedy delta debugging on the operation lines of one failing case (keeps the header)"""
     header = [l for l in case_lines if l.split(' ')[0] in ('prog', 'q', 'b', 'input')]
     ops = [l for l in case_lines if l.split(' ')[0] not in ('prog', 'q', 'b', 'input')]
+    def valid(o):
+        # the protocol (and the property) speaks about untracked-cell changes FOLLOWED BY a new
+        # revision; a candidate in which a `cell` line is not followed by a write before the
+        # next request is outside the protocol (either answer would be right) and is skipped
+        pending = False
+        for l in o:
+            w = l.split(' ')[0]
+            if w == 'cell':
+                pending = True
+            elif w in ('set', 'synth'):
+                pending = False
+            elif pending:
+                return False
+        return True
     def fails(o):
+        if not valid(o):
+            return False
         rc, out = run_one(binp, work, '\n'.join(header + o) + '\n')
         return rc == 1 and ('key=' + key) in out
     if not fails(ops):
